@@ -211,9 +211,12 @@ Section oracles.
   (* C06: the executable invariant *)
   Definition inv_msgs (live : value) (m : list (string * (string * bool * list path))) : list string :=
     chk (conforms s tr true live) "prop C06 live object is valid under its schema" @@
-    chk (forallb (fun o : string * (string * bool * list path) =>
-                    forallb (fun p => present s tr live p) (snd (snd o))) m)
-        "prop C06 every owned path designates something present in the live object" @@
+    (let dangling := flat_map (fun o : string * (string * bool * list path) =>
+                                 filter (fun p => negb (present s tr live p)) (snd (snd o))) m in
+     match dangling with
+     | [] => []
+     | _ => ["prop C06 every owned path designates something present in the live object: " ++ show_sexp (enc_paths dangling)]
+     end) @@
     chk (forallb (fun o : string * (string * bool * list path) =>
                     match snd (snd o) with [] => false | _ => true end) m)
         "prop C06 no manager with an empty record".
@@ -399,7 +402,29 @@ Definition apply_oracles (gone : string -> bool) (vers : list string) (ign : str
     flat_map (fun o => match o with
                        | HErr => ["prop C06 an operation on valid inputs failed without a conflict"]
                        | HPanic => ["prop C06 an operation on valid inputs panicked"]
-                       | HOk ob m => inv_msgs s tr (match ob with Some t => snd t | None => lv end) m
+                       | HOk ob m =>
+                           let res := match ob with Some t => snd t | None => lv end in
+                           (* the one known deviation (F21): the configuration gives an EMPTY map or
+                              list at p where the live object holds content that the applier abandons:
+                              prune leaves p as a container of nothing a field set can mention and the
+                              dangling stage removes it, while the applier's record keeps p *)
+                           let dangling := flat_map (fun o : string * (string * bool * list path) =>
+                                                       filter (fun p => negb (present s tr res p)) (snd (snd o))) m in
+                           let empty_in_cfg (p : path) :=
+                             match resolve_path s tr cfg p with
+                             | Some (RNode _ (VMap [])) | Some (RNode _ (VList [])) => true
+                             | _ => false
+                             end in
+                           match dangling with
+                           | _ :: _ =>
+                               if forallb (fun p => empty_in_cfg p && present s tr lv p) dangling
+                                  && forallb (fun p => pmem p (record_paths m mgr)) dangling
+                               then
+                                 filter (fun x => negb (prefix "prop C06 every owned path" x)) (inv_msgs s tr res m) @@
+                                 ["prop C06 an empty map or list of the configuration, laid over content the applier abandons, is owned but absent from the result: " ++ show_sexp (enc_paths dangling)]
+                               else inv_msgs s tr res m
+                           | [] => inv_msgs s tr res m
+                           end
                        | _ => []
                        end) [noforce; force]
   else if String.eqb prop "C07" then
@@ -750,7 +775,46 @@ Definition run_c20_sim (schemas : list (string * schema)) (hc : hconf) (lm mm ls
                        | Some (_, ap2, ps2) => Bool.eqb ap ap2 && psame (map (to_base ver) ps) ps2
                        | None => false
                        end) mm in
+          (* the one known deviation (F23): the two runs differ only in HOLLOW nodes -- null,
+             empty containers, containers of such -- which no field set mentions and which the
+             version-by-version add-back keeps or drops depending on which pass comes last,
+             and in who owns them *)
+          let fix hollow (fuel : nat) (v : value) : bool :=
+            match fuel with
+            | O => false
+            | S f =>
+                match v with
+                | VNull => true
+                | VList l => forallb (hollow f) l
+                | VMap m => forallb (fun kv : string * value => hollow f (snd kv)) m
+                | _ => false
+                end
+            end in
+          let d := ref_diff s tr (snd lm) (snd ls) in
+          let differing := nonroot (rd_removed d ++ rd_modified d ++ rd_added d)%list in
+          let hollow_at (v : value) (q : path) :=
+            match resolve_path s tr v q with
+            | Some (RNode _ x) => hollow (S (vdepth x)) x
+            | Some (RDup _ _) => false
+            | None => true
+            end in
+          let hollow_only :=
+            match differing with [] => false | _ => true end &&
+            forallb (fun q => hollow_at (snd lm) q && hollow_at (snd ls) q) differing &&
+            forallb (fun r : string * (string * bool * list path) =>
+                       let '(ver, ap, ps) := snd r in
+                       let ps1 := map (to_base ver) ps in
+                       let ps2 := match assoc_get (fst r) ms with Some (_, _, x) => x | None => [] end in
+                       forallb (fun q => pmem q ps2 || existsb (fun w => is_prefix w q || is_prefix q w) differing) ps1 &&
+                       forallb (fun q => pmem q ps1 || existsb (fun w => is_prefix w q || is_prefix q w) differing) ps2) mm &&
+            forallb (fun r : string * (string * bool * list path) =>
+                       match assoc_get (fst r) mm with
+                       | Some _ => true
+                       | None => forallb (fun q => existsb (fun w => is_prefix w q || is_prefix q w) differing) (snd (snd r))
+                       end) ms in
           mkOut (if same then []
+                 else if hollow_only then
+                   ["prop C20 the multi-version run equals the single-version run: they differ only in hollow nodes (null, empty containers) and their owners: " ++ show_sexp (enc_paths differing)]
                  else ["prop C20 the multi-version run, translated to one version, equals the single-version run"])
                 1 (if Nat.leb 2 (List.length (nodup String.string_dec (map (fun r : string * (string * bool * list path) => fst (fst (snd r))) mm))) then 1 else 0)
                 (if f8_shape then ["cross-version-nesting"] else [])
